@@ -151,34 +151,43 @@ def run_recipe(ctx, rng, r, kw, nin):
 
 
 # ----------------------------------------------------------------------------- gallery
-def load_module(path):
-    name = "rvgal_" + os.path.basename(path)[:-3]
-    spec = importlib.util.spec_from_file_location(name, path)
-    mod = importlib.util.module_from_spec(spec)
-    spec.loader.exec_module(mod)
-    return mod
-
-
 def gallery_targets():
-    """(format name, construct, [blob paths]) by matching module-level constructs to blobs by file-name stem/extension"""
-    import construct as C
-    out = []
-    blobs = sorted(glob.glob(os.path.join(REPO, "tests", "gallery", "blobs", "*")) + glob.glob(os.path.join(REPO, "tests", "deprecated_gallery", "blobs", "*")))
-    mods = sorted(glob.glob(os.path.join(REPO, "gallery", "*.py")) + glob.glob(os.path.join(REPO, "deprecated_gallery", "*.py")))
-    for mp in mods:
-        stem = os.path.basename(mp)[:-3]
-        if stem.startswith("__"):
-            continue
+    """(format name, construct, sample name, sample bytes): the (construct, sample) pairs are read from the repository's own
+    gallery tests - commondump*/commonhex/commonbytes calls - so that every gallery and deprecated_gallery format is driven
+    on every sample the repository ships for it; the constructs themselves come from the gallery packages"""
+    import re, ast
+    if REPO not in sys.path:
+        sys.path.insert(0, REPO)
+    ns = {}
+    for pkg in ("gallery", "deprecated_gallery"):
         try:
-            mod = load_module(mp)
+            mod = __import__(pkg)
+            ns.update({k: v for k, v in vars(mod).items() if not k.startswith("_")})
         except Exception:
+            pass
+    out = []
+    for tf, blobdir in (("tests/gallery/test_gallery.py", "tests/gallery/blobs"), ("tests/deprecated_gallery/test_formats.py", "tests/deprecated_gallery/blobs"),
+                        ("tests/deprecated_gallery/test_protocols.py", None)):
+        try:
+            src = open(os.path.join(REPO, tf)).read()
+        except OSError:
             continue
-        cands = [(n, v) for n, v in vars(mod).items() if isinstance(v, C.Construct) and not n.startswith("_") and (n.endswith("_file") or n.endswith("_header") or n in ("layer2_ethernet", "ip_stack", "snoop_file", "cap_file", "mbr_format", "utindex_format", "pe32file"))]
-        for n, con in cands:
-            key = stem.split("_")[0].lower()
-            mine = [b for b in blobs if key[:3] in os.path.basename(b).lower()]
-            if mine:
-                out.append(("%s.%s" % (stem, n), con, mine))
+        for m in re.finditer(r"commondump(?:deprecated)?\((\w+),\s*\"([^\"]+)\"\)", src):
+            name, blob = m.group(1), m.group(2)
+            path = os.path.join(REPO, "tests/deprecated_gallery/blobs" if "deprecated" in m.group(0) else "tests/gallery/blobs", blob)
+            if name in ns and os.path.exists(path):
+                out.append((name, ns[name], blob, path))
+        for m in re.finditer(r"common(hex|bytes)\((\w+),\s*((?:b\"[^\"]*\"\s*\+?\s*)+)\)", src):
+            kind, name, lit = m.group(1), m.group(2), m.group(3)
+            if name not in ns:
+                continue
+            try:
+                data = ast.literal_eval("(" + lit + ")")
+                if kind == "hex":
+                    data = bytes.fromhex(data.decode())
+            except Exception:
+                continue
+            out.append((name, ns[name], "inline:" + data[:6].hex(), data))
     return out
 
 
@@ -186,29 +195,31 @@ def run_gallery(ctx, rng):
     import construct as C
     targets = gallery_targets()
     if ctx.index == 0:
-        ctx.count("gallery_formats", len(targets))
+        ctx.count("gallery_format_sample_pairs", len(targets))
+        ctx.count("gallery_formats", len(set(t[0] for t in targets)))
     k = 0
-    for name, con, blobs in targets:
-        for bp in blobs:
-            k += 1
-            if not ctx.mine(k):
-                continue
-            data = open(bp, "rb").read()
-            if len(data) > 300000:
-                continue
-            base = {"gallery": name, "blob": os.path.relpath(bp, REPO)}
-            res = chain(ctx, con, data, {}, dict(base, cls="blob"), False, "gallery:" + name)
-            if res is None:
-                continue
-            ctx.count("gallery_blobs_accepted")
+    for name, con, label, src in targets:
+        k += 1
+        if not ctx.mine(k):
+            continue
+        data = open(src, "rb").read() if isinstance(src, str) else src
+        if len(data) > 400000:
+            continue
+        base = {"gallery": name, "sample": label}
+        res = chain(ctx, con, data, {}, dict(base, cls="blob"), False, "gallery:" + name)
+        if res is None:
+            continue
+        ctx.count("gallery_samples_accepted")
+        if res == "normalised":
+            ctx.nontrivial("gallery", name, label)
+        nflip = ctx.pick(8, 80) if len(data) > 2000 else ctx.pick(60, 400)
+        for t in range(nflip):
+            j = rng.randrange(len(data))
+            x = 1 << rng.randrange(8)
+            d2 = data[:j] + bytes([data[j] ^ x]) + data[j + 1:]
+            res = chain(ctx, con, d2, {}, dict(base, cls="blob-flip", at=j, xor=x), False, "gallery:" + name)
             if res == "normalised":
-                ctx.nontrivial("gallery", name, os.path.basename(bp))
-            for t in range(ctx.pick(6, 60)):
-                j = rng.randrange(len(data))
-                d2 = data[:j] + bytes([data[j] ^ (1 << rng.randrange(8))]) + data[j + 1:]
-                res = chain(ctx, con, d2, {}, dict(base, cls="blob-flip", at=j, xor=d2[j] ^ data[j]), False, "gallery:" + name)
-                if res == "normalised":
-                    ctx.nontrivial("gallery", name, os.path.basename(bp), "flip")
+                ctx.nontrivial("gallery", name, label, "flip")
 
 
 def run(ctx):
@@ -258,9 +269,9 @@ def run(ctx):
 
 def replay(ctx, case):
     if "gallery" in case:
-        for name, con, blobs in gallery_targets():
-            if name == case["gallery"]:
-                data = open(os.path.join(REPO, case["blob"]), "rb").read()
+        for name, con, label, src in gallery_targets():
+            if name == case["gallery"] and label == case["sample"]:
+                data = open(src, "rb").read() if isinstance(src, str) else src
                 if "at" in case:
                     data = data[:case["at"]] + bytes([data[case["at"]] ^ case["xor"]]) + data[case["at"] + 1:]
                 chain(ctx, con, data, {}, case, False, "gallery:" + name)
